@@ -55,6 +55,12 @@ def run(ctx):
     from .c05 import mistakes_language
     mistakes_language(ctx, "R10")
     composition_table(ctx, "R11")
+    # what canonicalize_url leaves raw, the cleaning pass of the next call deletes: a C1 control must stay escaped
+    m_, binds_, params_, sets_ = Q.model(ctx)
+    Q.rule_c1(ctx, "R12", sets_)
+    # both sides of the composition equalities are separate calls: none may depend on the calls made before it
+    from . import common_state as ST
+    ST.rule_one_shot_iterators(ctx, "R13")
 
 
 def default_protocol(ctx, rule, n):
